@@ -1001,7 +1001,36 @@ func drawECase(t *rapid.T, excluded map[string]bool) *ECase {
 	})
 	c.Faults = rapid.SliceOfN(fg, 1, 3).Draw(t, "faults")
 	// two structured shapes that random mixing rarely reaches
-	switch rapid.SampledFrom([]string{"random", "random", "random", "random", "random", "random", "delwave", "bigjournal", "readfault"}).Draw(t, "shape") {
+	switch rapid.SampledFrom([]string{"random", "random", "random", "random", "random", "random", "delwave", "bigjournal", "readfault", "trfail"}).Draw(t, "shape") {
+	case "trfail":
+		// a transaction with tables of its own whose Commit meets manifest failures that last
+		// through all its attempts and through the Discard that follows; then ordinary use
+		c.Opts.DisableLargeBatch = false
+		var ops []dbm.Op
+		for k := 0; k < 3 && k < nk; k++ {
+			ops = append(ops, dbm.Op{T: "put", K: k, V: gen.VSpec{Len: 20}, Sync: true})
+		}
+		wb := c.Opts.WriteBuffer
+		if wb > 4096 {
+			wb = 4096
+		}
+		ops = append(ops, dbm.Op{T: "tropen"})
+		for j := rapid.IntRange(3, 6).Draw(t, "tfn"); j > 0; j-- {
+			ops = append(ops, dbm.Op{T: "put", K: rapid.IntRange(0, nk-1).Draw(t, "k"), V: gen.VSpec{Len: wb/2 + 40, Fill: j % 2}})
+		}
+		if len(ops)%2 == 0 {
+			ops = append(ops, dbm.Op{T: "get", K: 0}) // an odd position: this failed Commit is not retried by the harness
+		}
+		c.ArmAt = len(ops)
+		ops = append(ops, dbm.Op{T: "trcommit"})
+		for j := 0; j < 3; j++ {
+			ops = append(ops, dbm.Op{T: "put", K: rapid.IntRange(0, nk-1).Draw(t, "k"), V: gen.VSpec{Len: 30}, Sync: true})
+		}
+		ops = append(ops, dbm.Op{T: "get", K: 1}, dbm.Op{T: "compact"})
+		c.HealAt = c.ArmAt + 1 + rapid.SampledFrom([]int{1, 3, 1 << 20}).Draw(t, "tfheal")
+		c.Ops = ops
+		c.Faults = []vfs.Fault{{Kind: rapid.SampledFrom([]string{vfs.OpSync, vfs.OpWrite, vfs.OpCreate}).Draw(t, "tfk"), FType: "manifest", Nth: 1, Count: -1}}
+		return finishECase(t, c)
 	case "readfault":
 		// two generations of every key settled in several small tables over two or more levels
 		// (the older generation deeper), cold caches after a reopen, then one or two table
